@@ -15,7 +15,9 @@ from harness import vlib
 from harness import c19lib as L
 
 THEOREMS = ["C19_trace_partial", "C19_trace_refuted", "C19_codec_union_refuted", "C19_mixin_once", "C19_context",
-            "C19_union_context_refuted", "C19_de_trace_partial", "C19_de_post_once"]
+            "C19_union_context_refuted", "C19_de_trace_partial", "C19_de_post_once", "C19_codec_subclass_refuted",
+            "C19_subclass_context_refuted", "C19_disc_config_dispatch", "C19_disc_annotated_dispatch",
+            "C19_disc_no_variant"]
 
 # ---------------------------------------------------------------------------
 # generators
@@ -159,6 +161,169 @@ def gen_chain_schema(rng):
     return schema
 
 
+# A discriminator (class-level or Annotated) *without* a field is only generated where the mixin has no format-specific method:
+# with DataClassMessagePackMixin/ORJSON/TOML, variant.__mashumaro_from_dict_<fmt>__ resolves through the MRO to the
+# base's own dispatcher (the variant's unpacker is never compiled because no AttributeError occurs), every attempt
+# ends in a swallowed RecursionError and from_msgpack answers SuitableVariantNotFoundError after exponential time
+# (a /repo defect outside C19, reported).
+NO_FORMAT_METHOD = ("dict", "json", "yaml", "plain")
+
+
+def conv_disc(t, p, wf, sup):
+    """the type with its dataclass node p (outside unions) turned into Annotated[Kp, Discriminator(...)]"""
+    if t[0] == "dc" and t[1] == p:
+        return ["disc", p, wf, sup]
+    if t[0] == "list":
+        return ["list", t[1], conv_disc(t[2], p, wf, sup)]
+    if t[0] == "opt":
+        return ["opt", conv_disc(t[1], p, wf, sup)]
+    return t
+
+
+def variants_safe(schema, p):
+    """no subclass of p needs a value of p again (values stay finite)"""
+    return not any(reaches_class(schema, L.name_ty(schema, n), p)
+                   for d in L.descendants(schema, p) for n in L.flat_fields(schema, d))
+
+
+def add_discriminators(rng, schema):
+    """class hierarchies get discriminator tags, class-level (Config) discriminators with or without a field, and
+    field-level Annotated[Base, Discriminator(...)] annotations"""
+    classes, names = schema["classes"], schema["names"]
+    if not any(k["parent"] is not None for k in classes):
+        return
+    for c, k in enumerate(classes):
+        k["tag"] = rng.random() < (0.85 if k["parent"] is not None else 0.3)
+    for c, k in enumerate(classes):
+        if k["parent"] is None and L.descendants(schema, c) and variants_safe(schema, c):
+            r = rng.random()
+            if r < 0.3 and callable_variants(schema, c, L.disc_variants(schema, c, True, False)):
+                k["disc"] = "field"
+            elif r < 0.42 and schema["kind"] in NO_FORMAT_METHOD and callable_variants(schema, c, L.disc_variants(schema, c, False, False)):
+                k["disc"] = "nofield"
+            if k.get("disc"):
+                k["tag"] = False
+                schema["has_disc"] = True
+    for n, e in names.items():
+        if e.get("self"):
+            continue
+        for p in L.ty_classes(e["ty"]):
+            if e["ty"][0] == "union" or classes[p].get("disc") or not L.descendants(schema, p) or not variants_safe(schema, p):
+                continue
+            if rng.random() < 0.4:
+                wf, sup = rng.random() < 0.65 or schema["kind"] not in NO_FORMAT_METHOD, rng.random() < 0.35
+                if callable_variants(schema, p, L.disc_variants(schema, p, wf, sup)):
+                    e["ty"] = conv_disc(e["ty"], p, wf, sup)
+                    schema["has_disc"] = True
+                    break
+
+
+def gen_union_flags_schema(rng):
+    """Unions whose members differ in their keyword-adding options: 2-3 member classes, each with its own context option,
+    other options and hooks (some look-alikes), a holder with u: Union[...] directly or in a container."""
+    kind = rng.choice([k for k in KINDS if k != "plain"])
+    toml = kind == "toml"
+    names, classes = {}, []
+    schema = {"kind": kind, "kw_only": rng.random() < 0.5, "repl": rng.random() < 0.5, "toml_safe": toml, "dialect": False,
+              "mixed_flags": True, "future_ann": rng.random() < 0.5, "uflags": True, "spell": gen_spell(rng),
+              "names": names, "classes": classes}
+
+    def new_name(t):
+        n = len(names)
+        names[str(n)] = {"ty": t, "default": False, "annotated": False}
+        return n
+    ints = [new_name(["int"]) for _ in range(3)]
+    k = rng.choice([2, 2, 3])
+    for c in range(k):
+        classes.append({"parent": None, "own_fields": sorted(rng.sample(ints, rng.choice([1, 1, 2]))), "own_hooks": gen_hooks(rng),
+                        "own_ctx": rng.random() < 0.55,
+                        "flags": [f for f in ("omit_none", "by_alias", "dialect") if rng.random() < 0.4]})
+    ms = canon_union(schema, rng.sample(range(k), k))
+    u = ["union", ms]
+    lk = lambda: rng.choice(["list", "tuple", "dict"])
+    hf = [new_name(rng.choice([u, u, ["list", lk(), u]]))]
+    if rng.random() < 0.4:
+        hf.append(new_name(["dc", rng.randrange(k)]))
+    classes.append({"parent": None, "own_fields": hf, "own_hooks": gen_hooks(rng), "own_ctx": rng.random() < 0.85,
+                    "flags": [f for f in ("omit_none", "by_alias", "dialect") if rng.random() < 0.6]})
+    return schema
+
+
+def gen_hier_schema(rng):
+    """Class hierarchies: Base (0) with 2-4 (sub-)subclasses, a plain Leaf class nested in some of them, and a holder
+    whose fields are declared with Base - plainly, behind a class-level (Config) discriminator with or without a
+    field, or behind Annotated[Base, Discriminator(field?/include_supertypes?)] - directly and through
+    Optional/List/Dict.  Hook profiles, tags and context options are drawn per class; siblings share field names
+    (look-alikes, which matters when every variant is tried in turn)."""
+    kind = rng.choice(KINDS)
+    toml = kind == "toml"
+    names, classes = {}, []
+    schema = {"kind": kind, "kw_only": True, "repl": rng.random() < 0.5, "toml_safe": toml,
+              "dialect": kind != "plain" and rng.random() < 0.25, "future_ann": rng.random() < 0.5, "hier": True,
+              "spell": gen_spell(rng), "names": names, "classes": classes}
+
+    def new_name(t, default=False):
+        n = len(names)
+        names[str(n)] = {"ty": t, "default": bool(default), "annotated": False}
+        return n
+    ints = [new_name(["int"]) for _ in range(4)]
+    nsub = rng.choice([2, 3, 3, 4])
+    # 0 = Leaf, 1 = Base, 2.. = subclasses, last = holder
+    classes.append({"parent": None, "own_fields": [ints[0]], "own_hooks": gen_hooks(rng), "own_ctx": rng.choice([None, True, False])})
+    leaf_names = [new_name(["dc", 0]), new_name(["opt", ["dc", 0]], default=True), new_name(["list", "list", ["dc", 0]])]
+    base_ctx = rng.choice([None, True, True, False])
+    classes.append({"parent": None, "own_fields": [ints[1]], "own_hooks": gen_hooks(rng), "own_ctx": base_ctx,
+                    "tag": rng.random() < 0.4})
+    for i in range(nsub):
+        c = 2 + i
+        parent = 1 if i == 0 or rng.random() < 0.6 else rng.randrange(2, c)
+        inherited = L.flat_fields(schema, parent)
+        own = [n for n in rng.sample(ints[2:] + leaf_names, rng.choice([0, 1, 1, 2])) if n not in inherited]
+        hooks = gen_hooks(rng)
+        if rng.random() < 0.4:
+            hooks = {h: False for h in L.HOOKS}        # inherits everything
+        classes.append({"parent": parent, "own_fields": own, "own_hooks": hooks,
+                        "own_ctx": rng.choice([None, None, None, True] + ([] if base_ctx else [False])),
+                        "tag": rng.random() < 0.85})
+    r = rng.random()
+    if r < 0.3 and callable_variants(schema, 1, L.disc_variants(schema, 1, True, False)):
+        classes[1]["disc"], classes[1]["tag"] = "field", False
+    elif r < 0.42 and kind in NO_FORMAT_METHOD:
+        classes[1]["disc"], classes[1]["tag"] = "nofield", False
+
+    def base_ty():
+        if classes[1].get("disc") or rng.random() < 0.3:
+            return ["dc", 1]
+        wf, sup = rng.random() < 0.6 or kind not in NO_FORMAT_METHOD, rng.random() < 0.4
+        return ["disc", 1, wf, sup] if callable_variants(schema, 1, L.disc_variants(schema, 1, wf, sup)) else ["dc", 1]
+    lk = lambda: rng.choice(["list", "tuple", "dict"])
+    hf = []
+    for _ in range(rng.choice([1, 2, 2, 3])):
+        b = base_ty()
+        t = rng.choice([b, b, ["opt", b], ["list", lk(), b], ["list", lk(), b]] + ([] if toml else [["list", lk(), ["opt", b]]]))
+        hf.append(new_name(t, default=(t[0] == "opt")))
+    classes.append({"parent": None, "own_fields": [ints[0]] + hf, "own_hooks": gen_hooks(rng),
+                    "own_ctx": rng.choice([None, True, True, False])})
+    schema["has_disc"] = True
+    return schema
+
+
+def callable_variants(schema, c, vs):
+    """variants whose to_dict accepts every keyword the declared class c makes the caller pass (an opted-in base with a
+    subclass that opted out makes to_dict raise TypeError - a crash, not a hook matter)"""
+    ok = [v for v in vs if (L.ctx_on(schema, v) or not L.ctx_on(schema, c))
+          and set(L.class_flags(schema, c)) <= set(L.class_flags(schema, v))]
+    return ok
+
+
+def substitutable(schema, c):
+    """subclasses whose instances may stand at a position declared with class c: same context option and the same
+    other code generation options (the keyword list of the call is computed from the declared class), finite"""
+    return [d for d in L.descendants(schema, c)
+            if L.ctx_on(schema, d) == L.ctx_on(schema, c) and L.class_flags(schema, d) == L.class_flags(schema, c)
+            and not any(reaches_class(schema, L.name_ty(schema, n), c) for n in L.flat_fields(schema, d))]
+
+
 def gen_schema(rng):
     kind = rng.choice(KINDS)
     toml = kind == "toml" or rng.random() < 0.2     # toml-safe: no None inside lists, Optional fields default to None
@@ -201,20 +366,13 @@ def gen_schema(rng):
         else:
             own_ctx = rng.choice([None, True, True, True, False])
         classes.append({"parent": parent, "own_fields": own, "own_hooks": hooks, "own_ctx": own_ctx})
-    # per-class code generation options other than the context: only where no union can see differing flag lists
-    if kind != "plain" and not schema["dialect"] and rng.random() < 0.4 \
-            and not any(L.ty_has_union(x["ty"]) for x in names.values()):
+    # per-class code generation options other than the context (with unions too: the model knows which keywords a call
+    # passes, which calls raise TypeError and which union members share a call expression)
+    if kind != "plain" and not schema["dialect"] and rng.random() < 0.4:
         schema["mixed_flags"] = True
         for k in classes:
             k["flags"] = [f for f in ("omit_none", "by_alias", "dialect") if rng.random() < 0.35]
-    # Config discriminators (deserialization only, outside the Coq model: oracle only)
-    if inherit and rng.random() < 0.5:
-        for c in range(ncls):
-            if (classes[c]["parent"] is None and L.descendants(schema, c) and rng.random() < 0.7
-                    and not any(reaches_class(schema, L.name_ty(schema, n), c)
-                                for d in L.descendants(schema, c) for n in L.flat_fields(schema, d))):
-                classes[c]["disc"] = True
-                schema["has_disc"] = True
+    add_discriminators(rng, schema)
     return schema
 
 
@@ -240,8 +398,14 @@ def gen_value(rng, schema, t, depth, uid, toml, maxd=4):
     if t[0] == "union":
         return gen_value(rng, schema, ["dc", rng.choice(t[1])], depth, uid, toml, maxd)
     c = t[1]
-    if schema["classes"][c].get("disc"):
-        c = rng.choice(L.descendants(schema, c))      # a tagged subclass
+    if t[0] == "disc":
+        c = rng.choice(callable_variants(schema, c, L.disc_variants(schema, c, t[2], t[3])))
+    elif schema["classes"][c].get("disc"):
+        c = rng.choice(callable_variants(schema, c, L.disc_variants(schema, c, schema["classes"][c]["disc"] != "nofield", False)))
+    elif rng.random() < 0.12:
+        ds = substitutable(schema, c)      # an instance of a subclass where the parent is declared
+        if ds:
+            c = rng.choice(ds)
     i = uid.next()
     fs = [[n, gen_value(rng, schema, L.name_ty(schema, n), depth + 1, uid, toml, maxd)] for n in L.flat_fields(schema, c)]
     r = uid.next() if (L.has_hook(schema, c, "pre") and rng.random() < 0.35) else None
@@ -311,7 +475,7 @@ def reaches_recursive(schema, t, seen=None):
     todo = []
     for c in L.ty_classes(t):
         todo.append(c)
-        if schema["classes"][c].get("disc"):
+        if schema["classes"][c].get("disc") or t[0] == "disc" or schema.get("has_disc"):
             todo += L.descendants(schema, c)      # the dispatcher builds the variants' functions too
     for c in todo:
         if c in seen:
@@ -326,27 +490,23 @@ def reaches_recursive(schema, t, seen=None):
     return False
 
 
-def entries_for(rng, schema, root_ty, direction, thorough):
+def entries_for(rng, schema, root_ty, direction, thorough, value=None):
     es = []
-    if schema.get("has_disc") and direction == "ser":
-        return es
     kind = schema["kind"]
     toml_ok = schema["toml_safe"]
     if root_ty[0] == "dc" and kind != "plain":
         meths = (L.SER_METHODS if direction == "ser" else L.DE_METHODS)[kind]
+        # the method is called on the object (serialization) resp. on the declared class (deserialization)
+        rc = value[1] if (direction == "ser" and value is not None and value[0] == "inst") else root_ty[1]
         for m in meths:
             if "toml" in m and not toml_ok:
                 continue
             es.append({"dir": direction, "via": "mixin", "method": m, "ctx": False})
-            if direction == "ser" and L.ctx_on(schema, root_ty[1]):
+            if direction == "ser" and L.ctx_on(schema, rc):
                 es.append({"dir": direction, "via": "mixin", "method": m, "ctx": True})
-            # (not for a format-specific method of a Config-discriminator hierarchy: /repo raises AttributeError when
-            # Base.from_msgpack(data, dialect=D) is the first msgpack call - the variant's unpacker is compiled into the
-            # dialect cache only; a C05/C14 matter, reported, outside C19)
-            if "dialect" in L.class_flags(schema, root_ty[1]) and not (
-                    schema.get("has_disc") and m != "from_dict" and kind in ("orjson", "msgpack", "toml")):
+            if "dialect" in L.class_flags(schema, rc):     # same calls with an (empty) call-time dialect
                 es.append({"dir": direction, "via": "mixin", "method": m, "ctx": False, "dialect": True})
-                if direction == "ser" and L.ctx_on(schema, root_ty[1]):
+                if direction == "ser" and L.ctx_on(schema, rc):
                     es.append({"dir": direction, "via": "mixin", "method": m, "ctx": True, "dialect": True})
     if reaches_recursive(schema, root_ty):
         return es
@@ -398,12 +558,27 @@ def fixed_cases():
     s4 = {"kind": "dict", "kw_only": True, "repl": True, "toml_safe": True, "has_disc": True,
           "names": {"0": {"ty": ["int"], "default": False}, "1": {"ty": ["int"], "default": False},
                     "2": {"ty": ["list", "list", ["dc", 0]], "default": False}},
-          "classes": [{"parent": None, "own_fields": [0], "own_hooks": mk(True, True, True, True), "own_ctx": None, "disc": True},
-                      {"parent": 0, "own_fields": [1], "own_hooks": mk(False, False, False, False), "own_ctx": None},
-                      {"parent": 0, "own_fields": [], "own_hooks": mk(False, False, True, True), "own_ctx": None},
+          "classes": [{"parent": None, "own_fields": [0], "own_hooks": mk(True, True, True, True), "own_ctx": None, "disc": "field"},
+                      {"parent": 0, "own_fields": [1], "own_hooks": mk(False, False, False, False), "own_ctx": None, "tag": True},
+                      {"parent": 0, "own_fields": [], "own_hooks": mk(False, False, True, True), "own_ctx": None, "tag": True},
                       {"parent": None, "own_fields": [2], "own_hooks": mk(False, False, True, True), "own_ctx": None}]}
     out.append((s4, ["dc", 3], ["inst", 3, 101, None, [[2, ["list", "list", [
         ["inst", 1, 102, None, [[0, ["int", 1]], [1, ["int", 2]]]], ["inst", 2, 103, None, [[0, ["int", 3]]]]]]]]]))
+    # subclass instance where the parent is declared: H(a: A) holding A2(A); A2 adds hooks and a field
+    s5 = {"kind": "msgpack", "kw_only": True, "repl": False, "toml_safe": True,
+          "names": {"0": {"ty": ["int"], "default": False}, "1": {"ty": ["int"], "default": False},
+                    "2": {"ty": ["dc", 0], "default": False}},
+          "classes": [{"parent": None, "own_fields": [0], "own_hooks": mk(False, False, False, False), "own_ctx": None},
+                      {"parent": 0, "own_fields": [1], "own_hooks": mk(True, True, False, False), "own_ctx": None},
+                      {"parent": None, "own_fields": [2], "own_hooks": mk(False, False, False, False), "own_ctx": None}]}
+    out.append((s5, ["dc", 2], ["inst", 2, 101, None, [[2, ["inst", 1, 102, None, [[0, ["int", 1]], [1, ["int", 2]]]]]]]))
+    # Holder (opted in) with b: Base (not opted in) holding Sub(Base) (opted in)
+    s6 = {"kind": "dict", "kw_only": True, "repl": False, "toml_safe": True,
+          "names": {"0": {"ty": ["int"], "default": False}, "1": {"ty": ["dc", 0], "default": False}},
+          "classes": [{"parent": None, "own_fields": [0], "own_hooks": mk(False, False, False, False), "own_ctx": None},
+                      {"parent": 0, "own_fields": [], "own_hooks": mk(True, True, False, False), "own_ctx": True},
+                      {"parent": None, "own_fields": [1], "own_hooks": mk(True, True, False, False), "own_ctx": True}]}
+    out.append((s6, ["dc", 2], ["inst", 2, 101, None, [[1, ["inst", 1, 102, None, [[0, ["int", 1]]]]]]]))
     return out
 
 
@@ -441,18 +616,31 @@ def structural_kf(case):
                 return "C19/codec-union-static-dispatch"
             if len({L.ctx_on(case["schema"], m) for m in ms}) > 1:
                 return "C19/union-member-flags"
+    if case["entry"]["via"] == "codec":
+        sub = []
+        L.subclass_positions(case["schema"], case["root_ty"], case["value"], sub)
+        if sub:
+            return "C19/codec-subclass-static-dispatch"
     return None
+
+
+def thorough_tier(ctx):
+    return not ctx.quick()
 
 
 def run(ctx: vlib.Ctx):
     t_start = time.time()
     ctx.coverage["rule"] = (
-        "random class tables (1-6 dataclasses; per class: each of the 4 hooks declared or not, on the class or inherited "
-        "from a parent; ADD_SERIALIZATION_CONTEXT on/off/inherited; fields int / nested class / List,Tuple,Dict of / "
-        "Optional of / Union of dataclasses, self-recursive classes; one type per field name so that look-alike classes "
-        "arise) x mixin kind (dict/json/orjson/msgpack/yaml/toml/plain) x hooks returning their argument or a new object "
-        "x random value tree x every entry point (mixin methods with/without context=, 6 codecs with root shapes "
-        "C/List/Tuple/Dict/Optional/Union); distinct = distinct (schema, value shape, entry point)")
+        "five schema families: (1) random class tables (1-6 dataclasses; stratified hook profiles, hooks declared or inherited; "
+        "ADD_SERIALIZATION_CONTEXT on/off/inherited, per-class OMIT_NONE/BY_ALIAS/DIALECT options; fields int / nested class / "
+        "List,Tuple,Dict / Optional / Union of dataclasses, recursion spelled by name or typing.Self; PEP 604, builtin/abc "
+        "generics, Annotated; one type per field name so that look-alike classes arise); (2) context/flag chains of depth 3-5; "
+        "(3) class hierarchies: subclass instances at base-typed positions, class-level (Config) discriminators with/without "
+        "field, Annotated discriminators (field / no field / include_supertypes), tags present or missing; (4) unions whose "
+        "members differ in their keyword-adding options; (5) fixed cases for every known finding - x mixin kind "
+        "(dict/json/orjson/msgpack/yaml/toml/plain) x hooks returning their argument or a new object x random value tree "
+        "(<= 45 instances) x every entry point (mixin methods with/without context= and dialect=, 6 codecs with root shapes "
+        "C/List/Tuple/Dict/Optional/Union/Annotated discriminator); distinct = distinct (schema, value shape, entry point)")
     ctx.trusted += [
         "Hooks.v pack/unpack: hand-written model of the generated to_dict/from_dict control flow restricted to hook events "
         "(checked against the real hook log on every run); Python attribute lookup/dynamic dispatch, keyword TypeError, "
@@ -462,20 +650,37 @@ def run(ctx: vlib.Ctx):
         "format libraries json/orjson/msgpack/yaml/tomli_w/tomllib only transport the dict (outputs are decoded and compared)",
     ]
     ctx.assumptions += [
-        "values are trees (no instance occurs twice), every instance has exactly the declared class (for a union: exactly one "
-        "of the member classes); subclass instances at a parent-typed position are outside the generator",
-        "union members are dataclasses; each field name has one type per schema; only ADD_SERIALIZATION_CONTEXT among the "
-        "code generation options; hooks do not raise",
-        "deserialization: events of union members that were tried and discarded concern no instance of the result and are not "
-        "violations (property text: 'every instance that ends up in a deserialization result'); the model reproduces them exactly",
+        "values are trees (no instance occurs twice); an instance has the declared class, one of the union's member classes, a "
+        "variant of the discriminator, or (12% of plain positions) a subclass with the same keyword-adding options; a variant "
+        "whose to_dict would not accept the keywords of the declared class (TypeError, a crash) is not generated",
+        "union members are dataclasses; each field name has one type per schema; hooks do not raise; a discriminator without a "
+        "field is generated only where the mixin has no format-specific method (the /repo defect reported in round 3)",
+        "deserialization: events of union members / discriminator variants that were tried and discarded concern no instance of "
+        "the result and are not violations (property text: 'every instance that ends up in a deserialization result'); the "
+        "model reproduces them exactly",
+        "serialization of subclass instances through format-specific mixin methods (to_msgpack/to_jsonb/to_toml) is outside the "
+        "Coq model (MRO-resolved method; known finding C19/format-method-subclass-dispatch): oracle only",
     ]
     # 1. theorems
-    ctx.theorems("props/C19_hooks.vo", THEOREMS)
+    br = ctx.theorems("props/C19_hooks.vo", THEOREMS)
+    if thorough_tier(ctx) and br.ok:
+        # second opinion: the standalone checker re-checks the compiled library and its whole cone
+        rc, out, secs = vlib.run(["timeout", "1500", "coqchk", "-o", "-silent", "-Q", "theories", "Verif", "-Q", "gen", "VerifGen",
+                                  "-Q", "props", "VerifProps", "VerifProps.C19_hooks"], cwd=vlib.COQ, timeout=1600)
+        import re as _re
+        m = _re.search(r"\* Axioms:\s*(.*?)\n\s*\n", out, _re.S)
+        axioms = " ".join(m.group(1).split()) if m else "?"
+        ok = rc == 0 and axioms == "<none>" and "type-in-type: <none>" in out and "unsafe (co)fixpoints: <none>" in out \
+            and "positivity is assumed: <none>" in out
+        ctx.obligation("coqchk -o VerifProps.C19_hooks", ok, f"rc={rc} Axioms: {axioms} ({secs:.0f}s)")
+        ctx.trusted.append(f"coqchk -o VerifProps.C19_hooks: Axioms: {axioms}; no type-in-type, no unsafe fixpoints, no assumed positivity")
+        if not ok:
+            ctx.not_shown("coqchk VerifProps.C19_hooks", out[-1500:])
 
     # 2+3. cases
     rng = ctx.rng
     thorough = not ctx.quick()
-    n_schemas = ctx.budget(60, 600)
+    n_schemas = ctx.budget(60, 450)
     vals_per = ctx.budget(3, 4)
     ser_cases, de_cases = [], []     # (case dict, res)
     envs = []                        # coq env text per schema index
@@ -501,6 +706,14 @@ def run(ctx: vlib.Ctx):
         ctx.hist("schema_features", "call-dialect", int(bool(schema.get("dialect"))))
         ctx.hist("schema_features", "per-class-flags", int(bool(schema.get("mixed_flags"))))
         ctx.hist("schema_features", "chain-family", int(bool(schema.get("chain"))))
+        ctx.hist("schema_features", "hierarchy-family", int(bool(schema.get("hier"))))
+        ctx.hist("schema_features", "union-flags-family", int(bool(schema.get("uflags"))))
+        ctx.hist("schema_features", "union with members of differing options", int(any(
+            x["ty"][0] == "union" and len({(L.ctx_on(schema, m), tuple(L.class_flags(schema, m))) for m in x["ty"][1]}) > 1
+            for x in schema["names"].values())))
+        ctx.hist("schema_features", "config-discriminator with field", int(any(k.get("disc") in ("field", True) for k in schema["classes"])))
+        ctx.hist("schema_features", "config-discriminator without field", int(any(k.get("disc") == "nofield" for k in schema["classes"])))
+        ctx.hist("schema_features", "Annotated discriminator", int(any("disc" in json.dumps(x["ty"]) for x in schema["names"].values())))
         ctx.hist("schema_features", "typing.Self recursion", int(any(x.get("self") for x in schema["names"].values())))
         ctx.hist("schema_features", "class-name recursion", int(any(
             (not x.get("self")) and any(n in map(str, k["own_fields"]) and ci in L.ty_classes(x["ty"])
@@ -512,7 +725,7 @@ def run(ctx: vlib.Ctx):
         try:
             for root_ty, value in roots:
                 for direction in ("ser", "de"):
-                    for entry in entries_for(rng, schema, root_ty, direction, thorough):
+                    for entry in entries_for(rng, schema, root_ty, direction, thorough, value):
                         case = {"schema": schema, "src": src, "root_ty": root_ty, "entry": entry, "env": ei}
                         if direction == "ser":
                             case["value"] = value
@@ -531,6 +744,10 @@ def run(ctx: vlib.Ctx):
                         ctx.hist("entry_points", direction + ":" + (entry.get("method") or "codec-" + entry["codec"])
                                  + ("+context" if entry.get("ctx") else "") + ("+dialect" if entry.get("dialect") else ""))
                         ctx.hist("root_shape", root_ty[0])
+                        if direction == "ser":
+                            sp_ = []
+                            L.subclass_positions(schema, root_ty, value, sp_)
+                            ctx.hist("subclass_instances", ("with" if sp_ else "without") + " subclass instance at a parent-typed position")
                         ctx.hist("events_per_case", str(min(len(res["log"]) // 4 * 4, 40)))
                         (ser_cases if direction == "ser" else de_cases).append((case, res, verdict))
                         if verdict is not None:
@@ -557,7 +774,7 @@ def run(ctx: vlib.Ctx):
         si += 1
 
     # context / flag chains (depth 3-5, every class with its own opt-ins and hook profile)
-    for _ in range(ctx.budget(45, 500)):
+    for _ in range(ctx.budget(45, 350)):
         schema = gen_chain_schema(rng)
         root_ty = ["dc", len(schema["classes"]) - 1]
         roots = [(root_ty, gen_value_capped(rng, schema, root_ty, schema["toml_safe"], maxd=12)) for _ in range(2)]
@@ -566,6 +783,31 @@ def run(ctx: vlib.Ctx):
             ctx.hist("context_chains", "hooked opted-in node behind a hook-less opted-in class", int(nt > 0))
             ctx.hist("context_chains", f"all-opted-in path depth {min(md, 5)}")
         do_schema(si, schema, roots)
+        si += 1
+
+    # class hierarchies: subclass instances under base-typed fields, class-level and Annotated discriminators
+    for _ in range(ctx.budget(45, 400)):
+        schema = gen_hier_schema(rng)
+        n = len(schema["classes"])
+        roots = []
+        for vi in range(2):
+            r = rng.random()
+            if vi == 0 or r < 0.5:
+                root_ty = ["dc", n - 1]
+            elif r < 0.75:
+                root_ty = rng.choice([["dc", 1], ["list", "list", ["dc", 1]], ["opt", ["dc", 1]]])
+            else:
+                wf, sup = rng.random() < 0.6 or schema["kind"] not in NO_FORMAT_METHOD, rng.random() < 0.4
+                root_ty = ["disc", 1, wf, sup] if callable_variants(schema, 1, L.disc_variants(schema, 1, wf, sup)) and not schema["classes"][1].get("disc") else ["dc", n - 1]
+            roots.append((root_ty, gen_value_capped(rng, schema, root_ty, schema["toml_safe"])))
+        do_schema(si, schema, roots)
+        si += 1
+
+    # unions whose members differ in their keyword-adding options
+    for _ in range(ctx.budget(30, 200)):
+        schema = gen_union_flags_schema(rng)
+        root_ty = ["dc", len(schema["classes"]) - 1]
+        do_schema(si, schema, [(root_ty, gen_value_capped(rng, schema, root_ty, schema["toml_safe"])) for _ in range(2)])
         si += 1
 
     # 2. correspondence model vs implementation
@@ -615,18 +857,23 @@ def run(ctx: vlib.Ctx):
         if evs is None:
             return None      # a context object that is neither the token nor None: the oracle reports it
         e = case["entry"]
+        if L.is_format_method(case["schema"], e):
+            sub = []
+            L.subclass_positions(case["schema"], case["root_ty"], case["value"], sub)
+            if sub:
+                return None  # MRO-resolved format method of a subclass instance (known finding): not in the model
         mode = "Mixin" if e["via"] == "mixin" else "Codec"
         pc = bool(e.get("ctx"))
+        # a mixin method is called on the object itself: the "declared" class of the root is its own class
+        rt = ["dc", case["value"][1]] if (e["via"] == "mixin" and case["value"][0] == "inst") else case["root_ty"]
         okt = "Some " + L.coq_bool(res["ok"])
         if not res["ok"] and L.fmt_of(e) != "dict":
             okt = "None"       # may come from the format encoder (e.g. None is not TOML serializable)
         return (f"({mode}, {L.coq_bool(case['schema']['kind'] != 'plain')}, E{case['env']}, "
-                f"{L.coq_val(case['schema'], case['value'])}, {L.coq_ty(case['root_ty'])}, {L.coq_bool(pc)}, "
+                f"{L.coq_val(case['schema'], case['value'])}, {L.coq_ty(rt)}, {L.coq_bool(pc)}, {L.coq_xf(['dialect'] if e.get('dialect') else [])}, "
                 f"{'CTok' if pc else 'CNone'}, {okt}, {evs})")
 
     def render_de(case, res):
-        if case["schema"].get("has_disc"):
-            return None      # discriminators are not in the model (oracle only)
         evs = L.coq_events(res["log"])
         r = "None" if not res["ok"] else "Some " + L.coq_val(case["schema"], res["result"])
         return (f"(E{case['env']}, {L.coq_wire_typed(case['schema'], case['root_ty'], case['wire'])}, "
